@@ -117,12 +117,91 @@ def check_matrix_properties(ctx, f2c, c2f, xr, xc, info):
     return None
 
 
+def gen_xbnds(ctx):
+    """T1: the real RoddedRegion.calculate_xbnds (the duct-cell boundaries the duct<->gap maps are built on) is executed
+    symbolically on real 7- and 19-pin bundles with one, two and three ducts; the corner lengths it reads are atoms that the
+    generated theorems replace by the traced `calculate_geometry` formulas of Gen/C08Geo.  Theorem per bundle: the walk closes -
+    the last (closing) half corner equals the first (opening) half corner, and that is the corner half-length on the OUTER
+    face of the OUTERMOST duct; every cell between them is one pin pitch or one whole corner of that face.  So the duct mesh
+    tiles the perimeter 6 F_outer / sqrt 3 that the gap mesh is built on."""
+    import re
+    import dassh.region_rodded as RR
+    from harness import bundle_trace as bt
+    from harness.checks import c08
+    from harness.trace import Trace, rebind, to_lean, symarray, Sym
+    c08.gen_geometry(ctx)                      # Gen/C08Geo.lean as of the current source
+    geo = " ".join(c08.GEO_PARAMS)
+    L = ["-- GENERATED by /verif/harness (C10, duct-cell boundaries): traced from dassh.region_rodded.RoddedRegion.calculate_xbnds.",
+         "import Dassh.Gen.C08Geo", "import Mathlib.Algebra.Order.Field.Basic", "import Mathlib.Tactic.FieldSimp", "import Mathlib.Tactic.Ring",
+         "import Mathlib.Tactic.LinearCombination", "",
+         "namespace Dassh.Gen.C10X", "", "variable {K : Type} [Field K] [LinearOrder K] [IsStrictOrderedRing K]", "",
+         "set_option linter.unusedVariables false", ""]
+    names = []
+    rng = random.Random(10100)
+    fix = lambda t: re.sub(r"\((\d+) : α\)", r"(\1 : K)", t)
+    for n_ring in (2, 3):
+        for nd in (1, 2, 3):
+            tag = "n%dd%d" % (n_ring, nd)
+            try:
+                o0, rr, tr0 = bt.sym_region(rng, n_ring, nd)
+                tr = Trace()
+
+                class Fake:
+                    pass
+                o = Fake()
+                o.subchannel = rr.subchannel
+                o.pin_pitch = tr.var("P", float(rr.pin_pitch))
+                o.d = {'wcorner': symarray(tr, "wc", rr.d['wcorner'])}
+                o.duct_ftf = [[tr.var("F%di" % k, float(rr.duct_ftf[k][0])), tr.var("F%do" % k, float(rr.duct_ftf[k][1]))] for k in range(nd)]
+                xb = rebind(RR.RoddedRegion.calculate_xbnds, tr)(o)
+                real = rr.calculate_xbnds()
+            except Exception:
+                import traceback
+                ctx.problem("trace-failed", "c10 xbnds " + tag, traceback.format_exc()[-800:])
+                continue
+            xb = [x if isinstance(x, Sym) else tr.const(x) for x in xb]
+            dev = max(abs(x.val - float(r)) for x, r in zip(xb, real))
+            ctx.obligation("xbnds trace %s reproduces the real boundaries (max dev %.2e)" % (tag, dev), dev < 1e-12, kind="translator-validation")
+            typ = np.roll(rr.subchannel.type[-rr.subchannel.n_sc['duct']['total']:] - 3, 1)
+            typ = typ[:len(xb) - 2]          # cells of the walk (one duct ring)
+            wc = "wc_%d_1" % (nd - 1)
+            fo = "F%do" % (nd - 1)
+            lean = lambda e: fix(to_lean(e))
+            atoms = ["wc_%d_%d" % (k, j) for k in range(nd) for j in range(2)] + [x for k in range(nd) for x in ("F%di" % k, "F%do" % k)]
+            cells = []
+            for i in range(1, len(xb) - 2):
+                want = "P" if typ[i] == 0 else "(2 : K) * " + wc
+                cells.append("%s = %s" % (lean(xb[i + 1] - xb[i]), want))
+            nm = "xbnds_" + tag
+            geocall = "Dassh.Gen.C08Geo.%s sqrtF (%d : K) P D Pw Dw F0i F0o F1i F1o F2i F2o s3 pi" % (wc, n_ring)
+            extra = [g for g in c08.GEO_PARAMS[1:] if g not in atoms and g != "P"]
+            L.append("/-- %d-ring bundle, %d duct(s): %d duct cells on the outer duct -/" % (n_ring, nd, len(xb) - 1))
+            L.append("theorem %s (sqrtF : K → K) (P %s %s : K) (hs3 : s3 * s3 = 3)\n    (hw : %s = %s) :\n    %s = %s\n    ∧ %s = %s\n    ∧ %s := by"
+                     % (nm, " ".join(atoms), " ".join(extra), wc, geocall, lean(xb[1] - xb[0]), wc, lean(xb[-1] - xb[-2]), wc, "\n    ∧ ".join(cells)))
+            L.append("  have hs : s3 ≠ 0 := by\n    intro h; rw [h] at hs3; norm_num at hs3")
+            L.append("  have h2 : s3 ^ 2 = 3 := by rw [pow_two]; exact hs3")
+            L.append("  have key : (6 : K) / s3 * %s = 6 * ((%d : K) - 1) * P + 12 * %s := by" % (fo, n_ring, wc))
+            L.append("    rw [hw]; simp only [gen_defs]; field_simp; ring_nf")
+            L.append("    try simp only [h2, show s3 ^ 3 = s3 ^ 2 * s3 by ring, show s3 ^ 4 = s3 ^ 2 * s3 ^ 2 by ring]\n    try ring")
+            L.append("  refine ⟨by ring, by linear_combination key, %s⟩\n" % ", ".join("by ring" for _ in cells))
+            names.append("Dassh.Gen.C10X." + nm)
+            ctx.count("xbnds_bundles_traced")
+    L.append("end Dassh.Gen.C10X\n")
+    ctx.gen("C10X", "\n".join(L))
+    return names
+
+
 def run(ctx):
     from dassh import mesh_functions as MF
     rng = random.Random(10000 + ctx.seed)
     ctx.rule = ("T3: generated (region mesh, gap mesh) pairs: 0..15 cells per side against 1..15, unequal corner lengths, "
                 "per-side mixed neighbours, corner-only regions, zero padding; plus the matrices real reactors store")
-    ctx.prove("Dassh.Props.C10")
+    try:
+        gen_xbnds(ctx)
+    except Exception:
+        import traceback
+        ctx.problem("trace-failed", "c10 xbnds tracer", traceback.format_exc()[-1500:])
+    ctx.prove("Dassh.Props.C10", also=["Dassh.Gen.C10X"])
     ok_driver = modelio.build_driver(ctx)
     n = 1500 if ctx.thorough else 250
     pairs = [gen_pair(rng) for _ in range(n)]
@@ -186,6 +265,10 @@ def run(ctx):
             gi.make_low_fidelity(rng, case, names_[1])
             for k_, a_ in enumerate(case['assignment']):
                 a_['type'] = names_[1] if (k_ > 0 or rng.random() < 0.5) else names_[0]
+        if ci % 4 == 0:
+            # a double-ducted type among them (the duct mesh belongs to the outermost duct)
+            pos = gi.core_positions(2)
+            case = gi.random_case(rng, positions=pos, n_types=2, gap_model='flow', length=0.1, type_kw=dict(n_duct=2))
         for tn in list(case['types']):
             if rng.random() < 0.5 and not case['types'][tn].get('use_low_fidelity_model'):
                 gi.add_axial_regions(rng, case, tn)
@@ -225,6 +308,28 @@ def run(ctx):
             for reg in a.region:
                 xr = reg.calculate_xbnds()
                 ctx.evals += 1
+                # the duct mesh itself: the walk starts at 0, ends on the perimeter of the outer face of the outermost duct (from the
+                # input dimensions), has the same cell lengths on all six hex sides, and the closing half of the split top corner
+                # equals the opening half
+                ftf_ = np.asarray(reg.duct_ftf, dtype=float).ravel()
+                perim_ = 6.0 * float(ftf_.max()) / math.sqrt(3.0)
+                dx_ = np.diff(np.asarray(xr, dtype=float))
+                ctx.count("reactor_duct_meshes:%d-duct" % (len(ftf_) // 2))
+                why_ = None
+                if abs(xr[0]) > 1e-12 or abs(xr[-1] - perim_) > 1e-10 * perim_:
+                    why_ = "the walk runs from %.9g to %.9g m, the outer duct perimeter is %.9g m" % (xr[0], xr[-1], perim_)
+                elif abs(dx_[-1] - dx_[0]) > 1e-10 * perim_:
+                    why_ = ("the closing half of the top corner cell is %.9g m long, the opening half %.9g m: the cells do not tile "
+                            "the perimeter" % (dx_[-1], dx_[0]))
+                elif (len(dx_) - 1) % 6 == 0:
+                    side_ = np.append(dx_[1:-1], dx_[-1] + dx_[0]).reshape(6, -1)
+                    if np.abs(side_ - side_[0]).max() > 1e-10 * perim_:
+                        why_ = "the duct cells of the six hex sides differ in length"
+                if why_:
+                    ctx.violation("c10-reactor-duct-mesh", "duct-cell boundaries of a real %d-duct region (%s): %s - a flux computed on this "
+                                  "mesh does not carry the same total heat on the gap mesh" % (len(ftf_) // 2, type(reg).__name__, why_),
+                                  case=case, asm=a_i, region=type(reg).__name__)
+                    break
                 why = check_matrix_properties(ctx, reg._map['gap2duct'], reg._map['duct2gap'], xr, xc, {})
                 if why:
                     ctx.violation("c10-reactor-" + why.split(":")[0], "stored duct/gap map of a real reactor: " + why, case=case,
